@@ -515,6 +515,24 @@ def run(ctx, model):
             check_handed("AnyBetween", [tok(), hi], f"{name}(), U+10FFFF", [(ord(ch), ord(hi))], False, {("r", f"{ch}-{hi}")})
         if ord(ch) > 0:
             check_handed("AnyButBetween", ["\x00", tok()], f"U+0000, {name}()", [(0, ord(ch))], True, {("r", f"\x00-{ch}")})
+        # partners NEAR the token's character and around the backslash: a token's text may be its character behind a backslash
+        # (`\$`), and a range check that orders the TEXT instead of the character only goes wrong for partners that lie between
+        # the character and U+005C
+        for p in sorted({chr(ord(ch) + 1), chr(max(ord(ch) - 1, 0)), "A", "[", "\\", "]", "a"} - {ch}):
+            lo, hi2 = (ch, p) if ord(ch) < ord(p) else (p, ch)
+            first_tok = ord(ch) < ord(p)
+            for cname, negd in (("AnyBetween", False), ("AnyButBetween", True)):
+                good = [tok(), p] if first_tok else [p, tok()]
+                lab = f"{name}(), {p!r}" if first_tok else f"{p!r}, {name}()"
+                check_handed(cname, good, lab, [(ord(lo), ord(hi2))], negd, {("r", f"{lo}-{hi2}")})
+                bad = [p, tok()] if first_tok else [tok(), p]
+                kind, h, hooks = construct(model, cname, bad)
+                f_ = model.cls(CLS, cname).methods["__init__"]
+                inp = f"{cname}({p!r}, {name}())" if first_tok else f"{cname}({name}(), {p!r})"
+                ctx.instance("R-ARGS", key=inp, sample=f"{inp}: {kind} {getattr(h, 'name', '')}")
+                if not (kind == "raise" and h.name == "InvalidRangeException"):
+                    ctx.violation("R-ARGS", f_.relpath, f_.short, "validation", f"{inp} must raise InvalidRangeException (the range is inverted)",
+                                  f_.node.lineno, inp=inp, detail=f"{kind} {getattr(h, 'name', h)!r}")
     ctx.floor("R-ROUNDTRIP", ctx.rule_counts.get("R-ROUNDTRIP", 0), 800, "constructor evaluations")
 
     # ---------------- R-PIPELINE
